@@ -119,6 +119,29 @@ func loaderSequences(r *ev.Run, depth int, keyPrefix string, meta, replay bool) 
 		}
 	}
 	rec(nil, 0, 0)
+	// long periodic sequences: every ordered pair of Load operations repeated 120
+	// times, draining each stream two periods late and inspecting early results at the end
+	for ai, a := range alphabet {
+		for bi, b := range alphabet {
+			if ai == bi {
+				continue
+			}
+			var seq []op
+			n := 0
+			for rep := 0; rep < 120; rep++ {
+				seq = append(seq, a, b)
+				n += 2
+				if rep >= 2 {
+					seq = append(seq, op{handle: n - 6}, op{handle: n - 5})
+				}
+			}
+			seq = append(seq, op{inspect: true, handle: 0}, op{inspect: true, handle: 1}, op{inspect: true, handle: n - 1})
+			run(seq)
+			if r.NViolations() > 25 {
+				break
+			}
+		}
+	}
 	r.Eval(seqs)
 	r.DistinctN(seqs)
 	r.Set(keyPrefix+"_sequences", seqs)
